@@ -317,7 +317,20 @@ fn s_line(out: &mut impl Write, rng: &mut Rng, matcher: &mut Matcher) {
             text.push('$');
         }
     }
-    let pattern = Pattern::parse(&text, case_of(case), norm_of(norm));
+    let mut pattern = Pattern::parse(&text, case_of(case), norm_of(norm));
+    // the parser only produces some (kind, polarity) pairs (`!foo` is always a substring atom): every third pattern gets
+    // its atoms rebuilt by hand with a random kind and polarity each, as a caller of `Atom::new` can
+    if !big && rng.chance(1, 3) {
+        for a in pattern.atoms.iter_mut() {
+            let kind = [AtomKind::Fuzzy, AtomKind::Substring, AtomKind::Prefix, AtomKind::Postfix, AtomKind::Exact][rng.below(5) as usize];
+            let t = a.needle_text().to_string();
+            let mut b = Atom::new(&t, case_of(case), norm_of(norm), kind, false);
+            b.negative = rng.chance(1, 2);
+            if !b.needle_text().is_empty() {
+                *a = b;
+            }
+        }
+    }
     let hr_ascii = hay.iter().all(|c| c.is_ascii()) && rng.chance(3, 4);
     let hb: Vec<u8> = hay.iter().map(|&c| c as u8).collect();
     let h = if hr_ascii { Utf32Str::Ascii(&hb) } else { Utf32Str::Unicode(&hay) };
